@@ -179,32 +179,19 @@ func (engine *Engine) TakeSnapshot() error {
 		return err
 	}
 
-	// Open manifest file
-	var mf *os.File
-	mf, err := os.Open(path.Join(dirname, "manifest.bin"))
+	// Read the manifest file if there is one.
+	// A missing or empty manifest (left by an interrupted first attempt) means no snapshot has been taken yet.
+	manifestPath := path.Join(dirname, "manifest.bin")
+	md, err := os.ReadFile(manifestPath)
 	if err != nil {
-		if errors.Is(err, fs.ErrNotExist) {
-			// Create file if it does not exist
-			mf, err = os.Create(path.Join(dirname, "manifest.bin"))
-			if err != nil {
-				log.Println(err)
-				return err
-			}
-			firstSnapshot = true
-		} else {
+		if !errors.Is(err, fs.ErrNotExist) {
 			log.Println(err)
 			return err
 		}
+		firstSnapshot = true
 	}
-
-	md, err := io.ReadAll(mf)
-	if err != nil {
-		log.Println(err)
-		return err
-	}
-	if err := mf.Close(); err != nil {
-		log.Println(err)
-		return err
+	if len(md) == 0 {
+		firstSnapshot = true
 	}
 
 	manifest := new(Manifest)
@@ -241,14 +228,39 @@ func (engine *Engine) TakeSnapshot() error {
 		return err
 	}
 
-	// os.Create will replace the old manifest file
-	mf, err = os.Create(path.Join(dirname, "manifest.bin"))
+	// The state file is written and synced first. The manifest, which is what restore consults,
+	// is replaced atomically (temporary file + rename) only once the state file is complete, so a
+	// crash at any point leaves either the previous snapshot or the new one restorable.
+
+	// Create snapshot directory
+	snapshotDir := path.Join(engine.directory, "snapshots", fmt.Sprintf("%d", msec))
+	if err := os.MkdirAll(snapshotDir, os.ModePerm); err != nil {
+		return err
+	}
+
+	// Create snapshot file
+	f, err := os.OpenFile(path.Join(snapshotDir, "state.bin"), os.O_WRONLY|os.O_CREATE|os.O_TRUNC, os.ModePerm)
 	if err != nil {
 		log.Println(err)
 		return err
 	}
 
-	// Write the latest manifest data
+	// Write state to file
+	if _, err = f.Write(out); err != nil {
+		_ = f.Close()
+		return err
+	}
+	if err = f.Sync(); err != nil {
+		_ = f.Close()
+		log.Println(err)
+		return err
+	}
+	if err = f.Close(); err != nil {
+		log.Println(err)
+		return err
+	}
+
+	// Write the latest manifest data to a temporary file.
 	manifest = &Manifest{
 		LatestSnapshotHash:         md5.Sum(out),
 		LatestSnapshotMilliseconds: msec,
@@ -258,42 +270,31 @@ func (engine *Engine) TakeSnapshot() error {
 		log.Println(err)
 		return err
 	}
+	tmpManifestPath := manifestPath + ".tmp"
+	mf, err := os.Create(tmpManifestPath)
+	if err != nil {
+		log.Println(err)
+		return err
+	}
 	if _, err = mf.Write(mo); err != nil {
+		_ = mf.Close()
 		log.Println(err)
 		return err
 	}
 	if err = mf.Sync(); err != nil {
+		_ = mf.Close()
 		log.Println(err)
+		return err
 	}
 	if err = mf.Close(); err != nil {
 		log.Println(err)
 		return err
 	}
 
-	// Create snapshot directory
-	dirname = path.Join(engine.directory, "snapshots", fmt.Sprintf("%d", msec))
-	if err := os.MkdirAll(dirname, os.ModePerm); err != nil {
-		return err
-	}
-
-	// Create snapshot file
-	f, err := os.OpenFile(path.Join(dirname, "state.bin"), os.O_WRONLY|os.O_CREATE, os.ModePerm)
-	if err != nil {
+	// Atomically replace the manifest.
+	if err = os.Rename(tmpManifestPath, manifestPath); err != nil {
 		log.Println(err)
 		return err
-	}
-	defer func() {
-		if err := f.Close(); err != nil {
-			log.Println(err)
-		}
-	}()
-
-	// Write state to file
-	if _, err = f.Write(out); err != nil {
-		return err
-	}
-	if err = f.Sync(); err != nil {
-		log.Println(err)
 	}
 
 	// Set the latest snapshot in unix milliseconds
